@@ -356,6 +356,6 @@ partial def runCircuitOps (fresh : OState × CState × SpecC03.Book) (ck : Close
 def suiteCircuit (kvs : List (String × String)) (lines : List (String × String)) : List String :=
   let c := initCirc kvs
   let b3 : SpecC03.Book := { sleep := kvInt kvs "c_sleep" 5000000000, half := kvInt kvs "c_half" 1, req := kvInt kvs "c_req" 1 }
-  (runCircuitOps (c.opener, c.closer, b3) (closerKind kvs) c c.cfg { c03 := b3, thr := (match c.opener with | .consec o => o.threshold | _ => 0), ep := { sleep := b3.sleep, allow := b3.half } } lines #[]).toList
+  (runCircuitOps (c.opener, c.closer, b3) (closerKind kvs) c c.cfg { openBefore := isOpenEff c, c03 := b3, thr := (match c.opener with | .consec o => o.threshold | _ => 0), ep := { sleep := b3.sleep, allow := b3.half } } lines #[]).toList
 
 end CM
